@@ -62,7 +62,8 @@ impl<T> EventSource for Park<'_, T> {
         #[cfg(may_verif)]
         may_queue::verif::point(may_queue::verif::site::CH_SPSC_SUB_STORED, 0);
         // re-check the state, only clear once after resume
-        if !self.queue.queue.is_empty() {
+        // also when the sender is already gone, or nobody would wake us up
+        if !self.queue.queue.is_empty() || self.queue.channels.load(Ordering::Relaxed) == 0 {
             if let Some(co) = wait_co.take() {
                 run_coroutine(co.into_coroutine());
             }
